@@ -2,6 +2,7 @@ package main
 
 import (
 	"fmt"
+	"go/ast"
 	"go/token"
 	"go/types"
 	"sort"
@@ -720,4 +721,144 @@ func ruleX7(p *Prog, r *Report) {
 		})
 	}
 	r.Floor(R, "reference-typed fields set by decoders of inlined containers", 6, n)
+}
+
+// X8 no silent skip on a family downcast: a comma-ok assertion of a closed-family interface value (a slab, an
+// element, an element list) to one member either treats the other members as an error, or only adds a step for
+// that member (the not-ok edge rejoins the code that follows the ok branch). An early *success* return on the
+// not-ok edge silently skips the other members of the family.
+func ruleX8(p *Prog, r *Report) {
+	const R = "X8"
+	fams := p.families()
+	inFamily := func(t types.Type) (string, int) {
+		nt := namedOf(t)
+		if nt == nil {
+			return "", 0
+		}
+		for _, f := range fams {
+			if nt.Obj().Name() == f.name && nt.Obj().Pkg() != nil && nt.Obj().Pkg().Path() == rootPkgPath {
+				return f.name, len(f.members)
+			}
+		}
+		return "", 0
+	}
+	n := 0
+	// explicit e.(T) expressions (type switches lower to comma-ok assertions too: those are X1's)
+	explicit := map[token.Pos]bool{}
+	for _, file := range p.Root.Syntax {
+		ast.Inspect(file, func(nd ast.Node) bool {
+			if te, ok := nd.(*ast.TypeAssertExpr); ok && te.Type != nil {
+				explicit[te.Lparen] = true
+			}
+			return true
+		})
+	}
+	funcs := append([]*ssa.Function(nil), p.Funcs...)
+	sort.Slice(funcs, func(i, j int) bool { return p.Name(funcs[i]) < p.Name(funcs[j]) })
+	for _, f := range funcs {
+		if p.IsTestFile(f.Pos()) || len(f.Blocks) == 0 || !lastResultIsError(f) {
+			continue // without an error result a "no" answer cannot be told from a skip
+		}
+		base := p.FileBase(f.Pos())
+		if strings.Contains(base, "verify") || strings.Contains(base, "dump") || strings.Contains(base, "stats") || strings.Contains(base, "debug") {
+			continue // diagnostic helpers: not part of the operations the properties speak about
+		}
+		ord := 0
+		eachInstr(f, func(in ssa.Instruction) {
+			ta, ok := in.(*ssa.TypeAssert)
+			if !ok || !ta.CommaOk || !explicit[ta.Pos()] {
+				return
+			}
+			fam, size := inFamily(ta.X.Type())
+			if fam == "" || size < 2 {
+				return
+			}
+			if _, isIface := ta.AssertedType.Underlying().(*types.Interface); isIface {
+				return
+			}
+			// the ok flag must decide a branch
+			var okV ssa.Value
+			for _, ref := range *ta.Referrers() {
+				if ex, isEx := ref.(*ssa.Extract); isEx && ex.Index == 1 {
+					okV = ex
+				}
+			}
+			if okV == nil {
+				return
+			}
+			var branch *ssa.If
+			notOkSucc := -1
+			for _, b := range f.Blocks {
+				ifi, isIf := b.Instrs[len(b.Instrs)-1].(*ssa.If)
+				if !isIf {
+					continue
+				}
+				c := ifi.Cond
+				neg := false
+				if u, isU := c.(*ssa.UnOp); isU && u.Op == token.NOT {
+					c, neg = u.X, true
+				}
+				if canon(c) == okV || c == okV {
+					branch = ifi
+					if neg {
+						notOkSucc = 0
+					} else {
+						notOkSucc = 1
+					}
+				}
+			}
+			if branch == nil {
+				return
+			}
+			n++
+			ord++
+			cons := fmt.Sprintf("family-downcast:%s:%s->%s", p.Name(f), fam, typeName(ta.AssertedType))
+			if ord > 1 {
+				cons += fmt.Sprintf("#%d", ord)
+			}
+			bb := branch.Block()
+			notOk, okB := bb.Succs[notOkSucc], bb.Succs[1-notOkSucc]
+			// (b) the not-ok edge rejoins the ok side: its target is reachable from the ok branch
+			rejoin := notOk == okB || canReachBlock(okB, notOk)
+			if rejoin {
+				r.Ok(R, cons, p.InstrPos(in), "the downcast only adds a step for this member; other members continue on the common path")
+				return
+			}
+			// (a) every exit reachable on the not-ok edge before rejoining is an error / panic
+			var silent ssa.Instruction
+			seen := map[*ssa.BasicBlock]bool{}
+			var walk func(b *ssa.BasicBlock)
+			walk = func(b *ssa.BasicBlock) {
+				if seen[b] || silent != nil {
+					return
+				}
+				seen[b] = true
+				if b != notOk && canReachBlock(okB, b) {
+					return // rejoined
+				}
+				last := b.Instrs[len(b.Instrs)-1]
+				switch x := last.(type) {
+				case *ssa.Return:
+					if c, _ := classifyReturn(x); c == retSuccess {
+						silent = x
+					} else if !lastResultIsError(f) {
+						silent = x
+					}
+					return
+				case *ssa.Panic:
+					return
+				}
+				for _, s := range b.Succs {
+					walk(s)
+				}
+			}
+			walk(notOk)
+			if silent == nil {
+				r.Ok(R, cons, p.InstrPos(in), "a value of another member of the family is reported as an error")
+			} else {
+				r.Bad(R, cons, p.InstrPos(silent), "when the "+fam+" is not a "+typeName(ta.AssertedType)+" the function returns success without handling it: the other members of the family are silently skipped")
+			}
+		})
+	}
+	r.Floor(R, "comma-ok downcasts of closed-family values", 3, n)
 }
